@@ -616,6 +616,8 @@ def gen_pair(seed, pair="dc"):
                 "mode": r.choice(["single_stage_pipeline", "five_stage_pipeline"])}
     r = R.stream(seed, "ops")
     text = gen_text(r, "riscv", p_bad=0.05)
+    if r.random() < 0.004:
+        text = T.full_memory_text(r)
     return {"mode": "pair", "pair": pair, "settings": settings, "ops": [["load", text]], "cap": r.choice([300, 1500])}
 
 
